@@ -24,7 +24,6 @@ import (
 	"math"
 	"os"
 	"reflect"
-	"runtime/pprof"
 	"sort"
 	"strings"
 
@@ -994,11 +993,6 @@ func safeCall(f func()) (pv string) {
 
 func main() {
 	f := lib.ParseFlags()
-	if pf := os.Getenv("TMP_PROF"); pf != "" {
-		fh, _ := os.Create(pf)
-		pprof.StartCPUProfile(fh)
-		defer pprof.StopCPUProfile()
-	}
 	res = lib.NewResult("C12", f)
 	thorough = f.Thorough()
 	var err error
@@ -1024,18 +1018,11 @@ func main() {
 	for _, in := range corpus() {
 		checkProgram(in)
 	}
-	if os.Getenv("TMP_ONLY_LIT") == "" {
-		for _, in := range bigCorpus() {
-			checkProgram(in)
-		}
+	for _, in := range bigCorpus() {
+		checkProgram(in)
 	}
 	// round 8: literal families (own PRNG stream: the programs of the older streams stay what they were per seed)
-	litStream(lib.NewRNG(f.Seed^0x6c69746572616c73), f.Scale(250, 4000))
-	if os.Getenv("TMP_ONLY_LIT") != "" {
-		res.Write(f.Out)
-		pprof.StopCPUProfile()
-		return
-	}
+	litStream(lib.NewRNG(f.Seed^0x6c69746572616c73), f.Scale(100, 3000))
 	rng := lib.NewRNG(f.Seed)
 	n := f.Scale(1500, 15000)
 	for i := 0; i < n; i++ {
